@@ -220,7 +220,66 @@ def is_dropflag_cond(cond):
 
 
 def atoms_at(body, bb):
-    return [(g[0], atom_of(g[1], g[2])) for g in body.guards(bb) if not is_dropflag_cond(g[1])]
+    out = [(g[0], atom_of(g[1], g[2])) for g in body.guards(bb) if not is_dropflag_cond(g[1])]
+    extra = []
+    for gb, a in out:
+        if a[0] == "is" and a[2] == "Some" and a[1][0] == "call" and a[1][1].startswith("<std::iter::Filter<") and a[1][1].endswith("::next"):
+            extra.extend((FilterGuard(gb), x) for x in filter_atoms(body, a[1]))
+    return out + extra
+
+
+class FilterGuard(int):
+    """guard 'block' of an atom implied by Iterator::filter: the block of the `next` test; items failing the predicate are
+    dropped inside the adaptor (the loop continues with the next item and nothing else happens)"""
+
+
+def subst_term(t, mapping):
+    if isinstance(t, tuple):
+        if t in mapping:
+            return mapping[t]
+        return tuple(subst_term(x, mapping) for x in t)
+    return t
+
+
+def filter_atoms(body, nextcall):
+    """`for x in it.filter(p)`: inside the loop body p(&x) holds.  The atoms of the closure's (single) true-path, with the
+    closure parameter replaced by the item, are returned; nothing is returned when the closure is not of that shape (the
+    rules then see an item about which nothing is known and fail closed)."""
+    it = nextcall[2][0]
+    src = it[2] if it[0] == "var" else it
+    src = strip(src)
+    for _ in range(3):
+        if src[0] == "call" and src[1] in ("std::iter::IntoIterator::into_iter", "<I as std::iter::IntoIterator>::into_iter"):
+            src = strip(src[2][0])
+    if src[0] != "call" or src[1] != "std::iter::Iterator::filter" or len(src[2]) != 2:
+        return []
+    clo = strip(src[2][1])
+    if clo[0] != "closure" or clo[1] not in body.facts.bodies:
+        return []
+    cb = body.facts.body(clo[1])
+    item = ("ref", "shared", ("some", nextcall))
+    mapping = {("arg", 2): item}
+    # the definitions of the return place: constants false on the short-circuit exits, and one "true-ish" definition
+    cand = []
+    for (b, i, kind, payload) in cb.defs().get(0, []):
+        if cb.is_cleanup(b):
+            continue
+        if kind == "rv" and payload["r"] == "use" and payload["op"]["o"] == "const" and isinstance(payload["op"]["c"].get("v"), bool):
+            if payload["op"]["c"]["v"]:
+                cand.append((b, None))
+            continue
+        cand.append((b, cb.call_term(b) if kind == "call" else cb._rv_term(payload)))
+    if len(cand) != 1:
+        return []
+    b, last = cand[0]
+    res = []
+    for g in cb.guards(b):
+        if is_dropflag_cond(g[1]):
+            continue
+        res.append(atom_of(subst_term(g[1], mapping), g[2]))
+    if last is not None:
+        res.append(atom_of(subst_term(last, mapping), ("eq", 1)))
+    return res
 
 
 def show_atom(a):
